@@ -331,6 +331,8 @@ PROPS["C13"] = dict(
     rule=("a case = placement + will + watcher subscriptions + cause. Non-trivial = hosting-node failure, or watchers on >= 2 nodes. Distinct = distinct case."),
     assumptions=["gossip fully delivered before the cause", "a retained will is expected to be replayed to a later subscriber like any retained publish"],
     runs=[
+        # the dying client falls silent in the middle of a PUBLISH / SUBSCRIBE / UNSUBSCRIBE and stays connected: after its allowance the will is published once, nothing of the packet has an effect
+        dict(name="silent", pkg="c13", run="TestSilentMidPacket", checks=dict(quick=64, thorough=1600), shards=8, timeout=dict(quick=400, thorough=2400), shrinktime="60s"),
         # a session accepted during an outage of the broker links, learnt by the survivors through push/pull only, then its node fails
         dict(name="outage", pkg="c13", run="TestWillAfterOutage", timeout=600),
         dict(name="regress", pkg="c13", run="TestRegress", timeout=300),
@@ -660,6 +662,7 @@ PROPS["C20"] = dict(
 # Later additions to the checks (rounds 7 and 8), appended to the manifest text of the property
 ADDITIONS = {
     "C01": "Run unsuback: at the very moment a session has received its UNSUBACK (hook on the fake connection) another client publishes and is acknowledged: the publish is not delivered to the session that left (unless a remaining filter matches) and is delivered to a session still subscribed.",
+    "C13": "Run silent: the dying session sends the first 1..n-1 bytes of a PUBLISH, SUBSCRIBE or UNSUBSCRIBE and then nothing, without closing; when its keep-alive allowance has passed (virtual clock) the connection is closed, the will reaches the watchers on 1-2 nodes exactly once (retained if asked), and nothing of the unfinished packet has any effect.",
     "C14": "Run panic (package c05): a destination whose write panics; the unchanged broker dies (nothing acknowledged), a survivor must not acknowledge.",
     "C02": "Run suback: a publish from another connection sent, and acknowledged, at the very moment the subscriber has received its SUBACK (hook on the fake connection) must reach that subscriber (1-3 filters, 0-60 retained messages replayed in between, QoS 1/2).",
     "C03": "Run ackatreceipt: 1-3 subscribers answer every PUBLISH / PUBREL the instant they hold it, from a hook that runs before the broker's write of that packet returns (and waits until the broker has consumed the answer); when afterwards every deadline passes twice nothing is sent again, every message was received once and all 65535 identifiers are free.",
